@@ -20,8 +20,6 @@ IsEvent(e) == l <= Len(Trace) /\ Trace[l].op = e /\ l' = l + 1
 InTable == {k \in 1..W.n : src[k] # 0}
 Keep == UNCHANGED <<pk, pass, pending, recq>>
 
-EmptyWorld == [n |-> 1, par |-> <<0>>, kind |-> <<"go">>, on |-> <<FALSE>>, rec |-> <<"U">>, all |-> <<"U">>,
-               sn |-> <<FALSE>>, excl |-> <<0>>, root |-> [rec |-> "U", all |-> "U", excl |-> 0]]
 TraceInit == /\ W = EmptyWorld /\ pk = << >> /\ pc = "done" /\ pass = 1 /\ pending = {} /\ recq = << >>
              /\ l = 1 /\ src = <<0>> /\ seen = {} /\ atBegin = {}
 
